@@ -72,38 +72,45 @@ impl Multicast {
         };
         let mc_addr = encrypted_data.fhdr().mc_addr();
         if let Some((group_id, session)) = self.matching_session(mc_addr) {
-            let fcnt = encrypted_data.fhdr().fcnt() as u32;
+            // `fcnt_down` is the next frame counter the group may use (minMcFCount when the group
+            // is set up, one past the last accepted frame afterwards). The wire carries the low 16
+            // bits only: the frame's 32-bit counter is the smallest value from `fcnt_down` on that
+            // ends in them. The frame is accepted if minMcFCount <= McFCount < maxMcFCount holds
+            // for that value and the MIC verifies under it, so no frame is accepted twice.
+            let next = session.fcnt_down;
+            let mut fcnt = (next & 0xFFFF_0000) | encrypted_data.fhdr().fcnt() as u32;
+            if fcnt < next {
+                fcnt = match fcnt.checked_add(0x1_0000) {
+                    Some(fcnt) => fcnt,
+                    None => return Response::NoUpdate,
+                };
+            }
             let nwk_crypto = DefaultCrypto::new(session.mc_net_s_key().inner());
             let app_crypto = DefaultCrypto::new(session.mc_app_s_key().inner());
-            if encrypted_data.validate_mic(&nwk_crypto, fcnt)
-                && (fcnt > session.fcnt_down || fcnt == 0)
-            {
-                return {
-                    session.fcnt_down = fcnt;
-                    // We can safely unwrap here because we already validated the MIC
-                    let decrypted = DecryptedDataPayload::decrypt_in_place(
-                        bytes,
-                        Some(&nwk_crypto),
-                        Some(&app_crypto),
-                        session.fcnt_down,
-                    )
-                    .unwrap();
-                    if session.fcnt_down == session.max_fcnt_down() {
-                        // if the FCnt is used up, the session has expired
-                        Response::SessionExpired { group_id }
-                    } else {
-                        if let (Some(fport), FrmPayload::Data(data)) =
-                            (decrypted.f_port(), decrypted.frm_payload())
-                        {
-                            // heapless Vec from slice fails only if slice is too large.
-                            // A data FRM payload will never exceed 256 bytes.
-                            let data = heapless::Vec::from_slice(data).unwrap();
-                            // TODO: propagate error when heapless vec is full?
-                            let _ = dl.push(Downlink { data, fport });
-                        }
-                        Response::DownlinkReceived { group_id, fcnt }
-                    }
-                };
+            if fcnt <= session.max_fcnt_down() && encrypted_data.validate_mic(&nwk_crypto, fcnt) {
+                if fcnt == session.max_fcnt_down() {
+                    // the network has used up the frame counters of the group: the session has expired
+                    return Response::SessionExpired { group_id };
+                }
+                session.fcnt_down = fcnt + 1;
+                // We can safely unwrap here because we already validated the MIC
+                let decrypted = DecryptedDataPayload::decrypt_in_place(
+                    bytes,
+                    Some(&nwk_crypto),
+                    Some(&app_crypto),
+                    fcnt,
+                )
+                .unwrap();
+                if let (Some(fport), FrmPayload::Data(data)) =
+                    (decrypted.f_port(), decrypted.frm_payload())
+                {
+                    // heapless Vec from slice fails only if slice is too large.
+                    // A data FRM payload will never exceed 256 bytes.
+                    let data = heapless::Vec::from_slice(data).unwrap();
+                    // TODO: propagate error when heapless vec is full?
+                    let _ = dl.push(Downlink { data, fport });
+                }
+                return Response::DownlinkReceived { group_id, fcnt };
             }
         }
         Response::NoUpdate
